@@ -264,18 +264,19 @@ fn main() {
                 // material: the first certificate of an epoch whose parent P is in the previous epoch; adversary F
                 // (own key) re-linked to P; F2 of the next adversary epoch linked to F; P' = P with the adversary's
                 // next key and the hash NOT recomputed
-                let boundary = certs.iter().find(|c| !c.is_genesis() && certs.iter().any(|p| p.hash == c.previous_hash && p.epoch != c.epoch && !p.is_genesis()));
                 let mut poison: Option<(Certificate, Certificate, Certificate, Certificate)> = None;
-                if let Some(c) = boundary {
+                for c in certs.iter().filter(|c| !c.is_genesis() && certs.iter().any(|p| p.hash == c.previous_hash && p.epoch != c.epoch && !p.is_genesis())) {
+                    if poison.is_some() { break; }
                     let p_cert = honest[&c.previous_hash].clone();
                     let advs = &adv.certificates_chained;
-                    if let Some(a) = advs.iter().find(|a| a.epoch == c.epoch && !a.is_genesis() && advs.iter().any(|p| p.hash == a.previous_hash && p.epoch != a.epoch)) {
+                    for a in advs.iter().filter(|a| a.epoch == c.epoch && !a.is_genesis()) {
                         if let Some(a2) = advs.iter().find(|x| x.previous_hash == a.hash && x.epoch != a.epoch) {
                             let mut f = a.clone(); f.previous_hash = p_cert.hash.clone(); rehash(&mut f);
                             let mut f2 = a2.clone(); f2.previous_hash = f.hash.clone(); rehash(&mut f2);
                             let mut p_alt = p_cert.clone();
                             p_alt.protocol_message.set_message_part(ProtocolMessagePartKey::NextAggregateVerificationKey, f.aggregate_verification_key.to_json_hex().unwrap());
-                            poison = Some((f, f2, p_alt, p_cert));
+                            poison = Some((f, f2, p_alt, p_cert.clone()));
+                            break;
                         }
                     }
                 }
